@@ -233,19 +233,72 @@ def gen_dict(rng, cls, parts, malformed=True):
 
 
 # ------------------------------------------------------------------ real code: dispatch with recording stand-ins
+def _stub(particle_list, *args, **kwargs):
+    # body of every Filter function while the dispatch is observed: record (own name, arguments), change nothing.
+    # It runs with the globals of sparkx.Filter, hence the imports by hand; the name is the code object's.
+    __import__("builtins")._c05_rec.append((__import__("sys")._getframe().f_code.co_name, args))
+    return particle_list
+
+
 def _recording(mods, rec):
+    """Make the Filter functions record their calls *wherever the code under test looks them up*: the function
+    objects of sparkx.Filter themselves get a recording body (their `__code__` is swapped), so a reference held in a
+    loader module (`from sparkx.Filter import *`), in a registry dict, in a closure or a partial records all the same.
+    Functions whose code cannot be swapped (closures) are replaced by identity in every dict / list that refers to
+    them.  `mods` are searched too for names that are no longer the sparkx.Filter objects (older layouts)."""
+    import builtins
+    import gc
+    import importlib
+    F = importlib.import_module("sparkx.Filter")
+    builtins._c05_rec = rec
     saved = []
-    for m in mods:
-        for name in pmodel.ALL_FILTERS:
-            if hasattr(m, name):
-                saved.append((m, name, getattr(m, name)))
-                setattr(m, name, (lambda n: (lambda ev, *a: (rec.append((n, a)), ev)[1]))(name))
+    for name in pmodel.ALL_FILTERS:
+        f = getattr(F, name, None)
+        if f is None or not hasattr(f, "__code__"):
+            continue
+        try:
+            old = f.__code__
+            f.__code__ = _stub.__code__.replace(co_name=name)
+            saved.append(("code", f, old))
+        except (ValueError, TypeError):
+            rep = (lambda n: (lambda ev, *a, **k: (rec.append((n, a)), ev)[1]))(name)
+            for holder in gc.get_referrers(f):
+                if isinstance(holder, dict):
+                    for k, v in list(holder.items()):
+                        if v is f:
+                            holder[k] = rep
+                            saved.append(("dict", holder, k, f))
+                elif isinstance(holder, list):
+                    for k, v in enumerate(holder):
+                        if v is f:
+                            holder[k] = rep
+                            saved.append(("dict", holder, k, f))
     return saved
 
 
 def _restore(saved):
-    for m, name, f in saved:
-        setattr(m, name, f)
+    import builtins
+    for item in reversed(saved):
+        if item[0] == "code":
+            item[1].__code__ = item[2]
+        else:
+            item[1][item[2]] = item[3]
+    if hasattr(builtins, "_c05_rec"):
+        del builtins._c05_rec
+
+
+_observable = {}
+
+
+def dispatch_observable(cls, path):
+    """can the calls of this class's constructor chain / methods be observed at all?  (one supported switch key on a
+    probe object must be recorded)"""
+    key = (cls, path)
+    if key not in _observable:
+        d = {"charged_particles": True}
+        r = _ctor_dispatch(cls, d) if path == "ctor" else _method_dispatch(cls, d)
+        _observable[key] = (r == "charged")
+    return _observable[key]
 
 
 def loader_class(cls):
@@ -275,13 +328,15 @@ def enc_calls(rec):
     return "+".join(pmodel.encode_call(n, a) for n, a in rec) if rec else "-"
 
 
-def real_ctor_dispatch(cls, d):
+def _ctor_dispatch(cls, d):
     mod, L = loader_class(cls)
     rec = []
     saved = _recording([mod], rec)
     try:
         obj = L.__new__(L)
-        f = getattr(obj, f"_{L.__name__}__apply_kwargs_filters")
+        f = getattr(obj, f"_{L.__name__}__apply_kwargs_filters", None)
+        if f is None:
+            return "unobservable"
         try:
             f([[]], d)
         except Exception as e:
@@ -289,6 +344,14 @@ def real_ctor_dispatch(cls, d):
         return enc_calls(rec)
     finally:
         _restore(saved)
+
+
+def real_ctor_dispatch(cls, d):
+    return _ctor_dispatch(cls, d) if dispatch_observable(cls, "ctor") else "unobservable"
+
+
+def real_method_dispatch(cls, d):
+    return _method_dispatch(cls, d) if dispatch_observable(cls, "meth") else "unobservable"
 
 
 def method_arity(S, name):
@@ -321,7 +384,7 @@ def apply_methods(obj, d):
     return obj
 
 
-def real_method_dispatch(cls, d):
+def _method_dispatch(cls, d):
     import importlib
     B = importlib.import_module("sparkx.BaseStorer")
     O = importlib.import_module("sparkx.Oscar")
@@ -628,12 +691,23 @@ def correspond(ctx):
                 cases.append((cls, d, "single"))
                 lines.append(f"calls\t{cls}\t{enc_dict(d)}")
     outs = common.run_driver("C05", lines)
+    unobs = [f"{cls}/{path}" for cls in CLASSES for path in ("ctor", "meth") if not dispatch_observable(cls, path)]
+    if unobs:
+        ctx.notes.append("dispatch not observable (no sparkx.Filter function object is entered by a probe call) for: " + ", ".join(unobs)
+                         + " — dispatch comparison skipped there; the equality constructor == method chain is judged on real results")
     for (cls, d, tag), out in zip(cases, outs):
         rc = real_ctor_dispatch(cls, d)
         rm = real_method_dispatch(cls, d)
         real = f"ok ctor={rc} meth={rm}"
         ctx.count(f"dispatch/{cls}/{tag}")
         ctx.case(("dispatch", cls, repr(jdict(d))), tag != "single" and not rc.startswith("err"))
+        if "unobservable" in (rc, rm):
+            # the calls of this path cannot be seen from outside (no Filter function object is entered): the dispatch
+            # comparison is skipped for it; constructor == method chain is still judged end to end below and by the oracle
+            ctx.count("dispatch/unobservable")
+            a, b = norm_pair(real), norm_pair(out)
+            if isinstance(a, tuple) and isinstance(b, tuple) and all(x == y for x, y, o in zip(a, b, (rc, rm)) if o != "unobservable"):
+                continue
         if norm_pair(real) != norm_pair(out):
             ctx.brk("correspondence-broken", f"dispatch {cls} {jdict(d)}: code `{real}` vs model `{out}`",
                     case=dict(cls=cls, dict=jdict(d)))
